@@ -15,8 +15,5 @@ INIT Init
 NEXT Next
 CHECK_DEADLOCK FALSE
 INVARIANTS
-  C04_Gate
-  C04_Once
-  C04_Untouched
-  C04_Conforming
+  C04_AllSteps
   C04_NonNegative
